@@ -51,7 +51,7 @@ def nontrivial(case):
         return not out.startswith('none sent=1 ') and not out.startswith('none sent=0 ')
     if comp == 'scan':
         return out.startswith('true') or 'reads=0' not in out
-    if comp in ('fields', 'ch', 'key', 'valset', 'helper', 'render'):
+    if comp in ('fields', 'ch', 'subitem', 'key', 'valset', 'helper', 'render'):
         return not out.startswith('EXC')            # something was decoded / encoded / rendered
     if comp == 'assign':
         return out.startswith('pack=') and 'EXC' not in out
@@ -70,7 +70,7 @@ def mix_tags(case):
     kind = line.split('|', 1)[0]
     tags = ['kind:' + kind]
     if case.get('pyflags'):
-        tags.append('interpreter:python ' + ' '.join(case['pyflags']))
+        tags.append('interpreter:python ' + ' '.join(case['pyflags']) + (' TZ=' + case['env'].get('TZ', '') if case.get('env') else ''))
     if out.startswith('EXC:') or ' EXC:' in out or '=EXC:' in out:
         tags.append('outcome:' + out[out.index('EXC:'):].split()[0].split(';')[0][:30])
     elif out == 'TIMEOUT':
@@ -100,14 +100,16 @@ PROPS = {
     'C02': {
         'source_transfer': ['TransferUbx'],
         'source_tie': ['UbxParser', 'Checksum'],
-        'jobs': [{'component': 'ubx', 'profile': 'grammar', 'quick': 2400, 'thorough': 6000, 'exhaustive': 'both'}],
+        'jobs': [{'component': 'ubx', 'profile': 'grammar', 'quick': 2400, 'thorough': 6000, 'exhaustive': 'both'},
+                 {'component': 'ubx', 'profile': 'bulk', 'quick': 0, 'thorough': 4}],
         'exhaustive_note': 'one transition for each parser state x 256 next bytes x 3 filters x 3 continuations, black box',
         'trusted': PARSER_TRUST,
     },
     'C03': {
         'source_transfer': ['TransferUbx'],
         'source_tie': ['UbxParser', 'Checksum'],
-        'jobs': [{'component': 'ubx', 'profile': 'wild', 'quick': 2400, 'thorough': 6000, 'exhaustive': 'both'}],
+        'jobs': [{'component': 'ubx', 'profile': 'wild', 'quick': 2400, 'thorough': 6000, 'exhaustive': 'both'},
+                 {'component': 'ubx', 'profile': 'bulk', 'quick': 0, 'thorough': 4}],
         'exhaustive_note': 'one transition for each parser state x 256 next bytes x 3 filters x 3 continuations, black box',
         'trusted': PARSER_TRUST,
     },
@@ -115,6 +117,7 @@ PROPS = {
         'source_transfer': ['TransferUbx', 'TransferNmea'],
         'source_tie': ['UbxParser', 'NmeaParser'],
         'jobs': [{'component': 'ubx', 'profile': 'chunks', 'quick': 900, 'thorough': 2500},
+                 {'component': 'ubx', 'profile': 'bulk', 'quick': 0, 'thorough': 2},
                  {'component': 'nmea', 'profile': 'chunks', 'quick': 1500, 'thorough': 3000}],
         'trusted': PARSER_TRUST,
     },
@@ -122,6 +125,7 @@ PROPS = {
         'source_transfer': ['TransferUbx'],
         'source_tie': ['UbxParser'],
         'jobs': [{'component': 'ubx', 'profile': 'ops', 'quick': 3000, 'thorough': 6000, 'exhaustive': 'thorough'},
+                 {'component': 'ubx', 'profile': 'bulk', 'quick': 0, 'thorough': 4},
                  {'component': 'cid', 'profile': 'grid', 'quick': 1, 'thorough': 1}],
         'trusted': PARSER_TRUST + ['object identity of payload buffers: explicit heap model (Model/HeapParser), tied by re-reading every '
                                    'handed-out payload object at the end of each history'],
@@ -155,6 +159,8 @@ PROPS = {
         'jobs': [{'component': 'fields', 'profile': 'decode', 'quick': 30, 'thorough': 400},
                  {'component': 'ch', 'profile': 'all-text', 'quick': 1, 'thorough': 1},
                  {'component': 'ch', 'profile': 'random', 'quick': 500, 'thorough': 5000},
+                 {'component': 'subitem', 'profile': 'grid', 'quick': 1, 'thorough': 1},
+                 {'component': 'key', 'profile': 'codec', 'quick': 150, 'thorough': 1000},
                  {'component': 'valset', 'profile': 'valget', 'quick': 450, 'thorough': 3000}],
         'exhaustive_note': 'count byte 0..255 of CFG-GNSS and ESF-STATUS, 0..7 of CFG-ESFLA, 0..32 MON-VER extensions; every byte position of every fixed layout with only its top bit set; '
                            'text items: every one- and two-byte sequence, every three-/four-byte lead class x every second byte x boundary continuation bytes',
@@ -167,7 +173,9 @@ PROPS = {
         'jobs': [{'component': 'fields', 'profile': 'decode', 'quick': 30, 'thorough': 400},
                  {'component': 'ch', 'profile': 'all-text', 'quick': 1, 'thorough': 1},
                  {'component': 'ch', 'profile': 'random', 'quick': 500, 'thorough': 5000},
+                 {'component': 'subitem', 'profile': 'grid', 'quick': 1, 'thorough': 1},
                  {'component': 'assign', 'profile': 'rmw', 'quick': 24, 'thorough': 60},
+                 {'component': 'key', 'profile': 'codec', 'quick': 150, 'thorough': 1000},
                  {'component': 'valset', 'profile': 'valget', 'quick': 300, 'thorough': 3000}],
         'exhaustive_note': 'text items: every one- and two-byte sequence, every three-/four-byte lead class x every second byte x boundary continuation bytes',
         'trusted': ['fields are assigned through attribute access on frame.f, re-encoded by frame.pack()',
@@ -221,6 +229,7 @@ PROPS = {
     'C12': {
         'jobs': [{'component': 'srv', 'profile': 'mixed', 'quick': 2400, 'thorough': 4000, 'project': 'sent+same'},
                  {'component': 'frame', 'profile': 'threads', 'quick': 1, 'thorough': 1},
+                 {'component': 'subitem', 'profile': 'grid', 'quick': 1, 'thorough': 1},
                  {'component': 'tty', 'profile': 'tty', 'quick': 180, 'thorough': 1500},
                  {'component': 'gpsdtx', 'profile': 'gpsdtx', 'quick': 180, 'thorough': 1500}],
         'trusted': ['stub serial.Serial (write/baudrate/is_open recorded), stub control socket (connect/sendall/recv scripted)'],
